@@ -14,7 +14,7 @@ pub static DEF: CheckDef = CheckDef {
     id: "C19",
     families,
     run_case,
-    rule: "the families of C01-C07, and additionally of C09-C17 (quick sizes; thorough: a tenth of their thorough \
+    rule: "the families of C01-C07, and additionally of C09-C17 (half of their quick sizes; thorough: a tenth of their thorough \
            sizes) executed by the f32 build under the f32 comparison rule, plus an offline diff of per-case metadata \
            logs between the f64 and the f32 build. Non-trivial / distinct: as defined by the underlying check for \
            each family.",
@@ -66,7 +66,8 @@ fn families(t: Tier) -> Vec<(&'static str, u64)> {
     for (id, def) in INNER {
         for (fam, count) in (def.families)(t) {
             let c = match t {
-                Tier::Quick => count,
+                // (half of the inner quick sizes: the f32 tier repeats sixteen checks on two builds)
+                Tier::Quick => (count / 2).max(1),
                 Tier::Thorough => (count / 10).max(1),
             };
             v.push((static_name(id, fam), c));
@@ -75,7 +76,7 @@ fn families(t: Tier) -> Vec<(&'static str, u64)> {
     v
 }
 fn floors(_t: Tier) -> Vec<(&'static str, u64)> {
-    vec![("evaluations", 150_000), ("metadata_lines_compared", 150_000), ("leaf_gradients_compared", 50_000), ("gradients_compared", 20_000)]
+    vec![("evaluations", 150_000), ("metadata_lines_compared", 150_000), ("leaf_gradients_compared", 40_000), ("gradients_compared", 20_000)]
 }
 
 pub fn run_case(ctx: &mut Ctx, fam: &str, k: u64, r: &mut Rng) {
@@ -84,9 +85,15 @@ pub fn run_case(ctx: &mut Ctx, fam: &str, k: u64, r: &mut Rng) {
         ctx.sig_prefix = "C19|".to_string();
         // the inner check derives its own data from the rng it is handed; re-derive it exactly as the inner check
         // would be seeded so that the f64 and f32 builds explore identical cases
-        let mut rr = Rng::for_case(ctx.seed, def.id, inner_fam, k);
+        // the sampled indices are spread over the inner family's whole index space (every 2nd / every 10th case, the
+        // offset chosen by the seed), not taken from its beginning
+        let kk = match ctx.tier {
+            Tier::Quick => 2 * k + ctx.seed % 2,
+            Tier::Thorough => 10 * k + ctx.seed % 10,
+        };
+        let mut rr = Rng::for_case(ctx.seed, def.id, inner_fam, kk);
         let _ = r;
-        (def.run_case)(ctx, inner_fam, k, &mut rr);
+        (def.run_case)(ctx, inner_fam, kk, &mut rr);
         ctx.sig_prefix.clear();
     }
 }
